@@ -6,6 +6,7 @@ package main
 import (
 	"fmt"
 	"go/types"
+	"math"
 	"strings"
 	"time"
 
@@ -133,6 +134,15 @@ func init() {
 			e.modelsUsed["time.Date = computed concretely, location UTC"] = true
 			sec := uint64(t.Unix() + 62135596800)
 			return StructV{[]Value{e.ts.BV(uint64(t.Nanosecond()), 64), e.ts.BV(sec, 64), PtrV{}}}
+		},
+		"math.Pow": func(e *Engine, st *State, args []Value) Value {
+			a, ok1 := st.known(args[0].(*Term))
+			b, ok2 := st.known(args[1].(*Term))
+			if !ok1 || !ok2 {
+				panic(unsupported("math.Pow with symbolic arguments"))
+			}
+			e.modelsUsed["math.Pow = computed concretely"] = true
+			return e.ts.FP(math.Pow(math.Float64frombits(a), math.Float64frombits(b)))
 		},
 		"time.AfterFunc": func(e *Engine, st *State, args []Value) Value {
 			e.modelsUsed["time.AfterFunc = timer that never fires inside a step"] = true
